@@ -397,6 +397,53 @@ pub fn exec_op(cx: &Cx, world: &mut World, op: &Value) {
             }
             emit(cx, json!({"op":"LazyQueue","k":"exec","id":id}), Some(&*world));
         }
+        "wop" => {
+            let s = op["s"].as_u64().unwrap_or(0) as usize;
+            if s >= cx.stores.len() {
+                return;
+            }
+            let base = {
+                let mut g = lock(cx);
+                let b = g.next_val + 1;
+                g.next_val += 64;
+                b as i64
+            };
+            if let Some(mut r) = cx.stores[s].wop(world, op, base) {
+                let m = r.as_object_mut().unwrap();
+                m.insert("op".into(), json!("WOp"));
+                m.insert("k".into(), op["k"].clone());
+                m.insert("s".into(), json!(s + 1));
+                emit(cx, r, Some(&*world));
+            }
+        }
+        "prealloc" => {
+            // n entities created at once; only those at the `keep` positions survive
+            let n = op["n"].as_u64().unwrap_or(1) as usize;
+            let keep: Vec<usize> = op["keep"]
+                .as_array()
+                .map(|a| a.iter().filter_map(|k| k.as_u64()).map(|k| k as usize).collect())
+                .unwrap_or_default();
+            let es: Vec<Entity> = world.create_iter().take(n).collect();
+            let mut kept = vec![];
+            let mut gone = vec![];
+            for (i, e) in es.iter().enumerate() {
+                if keep.contains(&i) {
+                    kept.push(*e);
+                } else {
+                    gone.push(*e);
+                }
+            }
+            let r = world.delete_entities(&gone);
+            {
+                let mut g = lock(cx);
+                g.handles.extend(kept.iter().copied());
+            }
+            emit(
+                cx,
+                json!({"op":"Prealloc","n":n,"ok":r.is_ok(),"hs":kept.iter().map(|&h| hj(h)).collect::<Vec<_>>()}),
+                Some(&*world),
+            );
+        }
         _ => {}
     }
 }
@@ -411,6 +458,7 @@ fn opname(op: &Value) -> &'static str {
         "delete_all" => "DeleteAll",
         "maintain" => "MaintainBegin",
         "sop" => "SOp",
+        "wop" => "WOp",
         "linsert" | "linsert_all" | "lremove" | "lexec" | "lexec_mut" => "LazyQueue",
         _ => "Nop",
     }
@@ -440,6 +488,8 @@ pub fn run_script(script: &Value) -> Vec<String> {
         _ => SweepMode::Full,
     };
     let zst: Vec<bool> = stores.iter().map(|s| s.zst()).collect();
+    let trk: Vec<&str> = stores.iter().map(|s| s.tracked()).collect();
+    crate::caps::reset_readers();
     let cx: Cx = Arc::new(Ctx {
         st: Mutex::new(HState {
             handles: vec![],
@@ -457,7 +507,7 @@ pub fn run_script(script: &Value) -> Vec<String> {
     let tid = script["tid"].clone();
     emit(
         &cx,
-        json!({"op":"Reset","cfg":{"S":kinds.len(),"zst":zst,"tid":tid,"kinds":kinds,"reg":regs}}),
+        json!({"op":"Reset","cfg":{"S":kinds.len(),"zst":zst,"trk":trk,"tid":tid,"kinds":kinds,"reg":regs}}),
         None,
     );
     let mut world = World::new();
